@@ -33,7 +33,7 @@ CHAIN_CLASSES = ['chain3-pow', 'chain3-mul', 'chain3-add', 'chain3-cmp', 'chain3
 CMP_CLASSES = ['cmp-' + o for o in R.CMPOPS]
 FN_CLASSES = ['fn-' + f for f in R.F1 + R.F2]
 UNA_CLASSES = ['una-%s-%s' % (s, b) for s in ('add', 'sub') for b in ('leading', 'before-add', 'before-sub', 'after-operator', 'binary')]
-ILL_CLASSES = ['ill-paren-insert', 'ill-paren-delete', 'ill-arity-more', 'ill-arity-empty-argument', 'ill-arity-fewer', 'ill-operand-deleted',
+ILL_CLASSES = ['ill-paren-insert', 'ill-paren-delete', 'ill-arity-more', 'ill-arity-empty-argument', 'ill-arity-fewer', 'ill-operand-deleted', 'ill-operator-deleted',
                'ill-edit-still-wellformed', 'ill-must-be-rejected']
 REQUIRED_CLASSES = (LEVEL_CLASSES + CHAIN_CLASSES + CMP_CLASSES + FN_CLASSES + UNA_CLASSES + ILL_CLASSES +
                     ['unary-before-pow', 'nesting>=3', 'blank-variant', 'logical-result', 'numeric-result', 'docs-example'])
@@ -89,13 +89,21 @@ def gen_ast(rng, tier, focus):
     return ['num', '1']
 
 
+BINARY_TOKENS = {'+', '-', '*', '/', '**', '<', '>', '<=', '>=', '==', '!=', '&&', '||'}
+
+
 def gen_edit(rng, ast):
     toks = R.tokens(ast)
     fnodes = R.nodes(ast, lambda e: e[0] == 'f')
     bnodes = R.nodes(ast, lambda e: e[0] == 'bin')
     parens = [i for i, t in enumerate(toks) if t.endswith('(') or t == ')']
-    kinds = ['paren-ins'] + (['paren-del'] if parens else []) + (['arity'] * 2 if fnodes else []) + (['operand-del'] * 3 if bnodes else [])
+    binops = [i for i, t in enumerate(toks) if t in BINARY_TOKENS and 0 < i < len(toks) - 1]
+    kinds = ['paren-ins'] + (['paren-del'] if parens else []) + (['arity'] * 2 if fnodes else []) + (['operand-del'] * 3 if bnodes else []) + \
+        (['operator-del'] * 2 if binops else [])
     k = rng.choice(kinds)
+    if k == 'operator-del':
+        # the operator between two operands is deleted: two operands stand next to each other ("(1) (2)", "sin(1) 2")
+        return dict(k=k, i=rng.choice(binops))
     if k == 'paren-ins':
         return dict(k=k, g=rng.randint(0, len(toks)), c=rng.choice('()'))
     if k == 'paren-del':
@@ -224,6 +232,8 @@ def apply_edit(ast, edit):
     toks = R.tokens(ast)
     if k == 'paren-ins':
         return toks[:edit['g']] + [edit['c']] + toks[edit['g']:], None, 'ill-paren-insert'
+    if k == 'operator-del':
+        return toks[:edit['i']] + toks[edit['i'] + 1:], None, 'ill-operator-deleted'
     if k == 'paren-del':
         t = toks[edit['i']]
         rep = [t[:-1]] if len(t) > 1 else []
